@@ -7,6 +7,7 @@ import sys
 from fractions import Fraction
 
 from harness import vlib
+from harness import fpheap
 from harness.fpgen import (CLS, POW2_BITS, attempt, dump_fp, gen_fp, gen_indices, make_fp, fpm)
 
 SETOPS = {"or": ("__or__", "__ror__", "__ior__", operator.or_, operator.ior, lambda a, b: a | b),
@@ -26,6 +27,7 @@ def nonzero(d):
     return {k: v for k, v in d.items() if v != 0}
 
 
+@fpheap.with_heap_cases(("repr", "eq"), 40, 1500)
 class C11(vlib.Check):
     id = "C11"
     props_modules = ["E3fpVerif.Props.C11"]
@@ -87,7 +89,36 @@ class C11(vlib.Check):
                 if kb == "count":
                     b["cnt"] = [[i, str(int(Fraction(v))) if Fraction(v) >= 1 else "1"] for i, v in b["cnt"]]
             self.count("addsub")
-            yield {"t": "addsub", "sign": rng.choice([1, -1]), "a": a, "b": b}
+            sign = rng.choice([1, -1])
+            case = {"t": "addsub", "sign": sign, "a": a, "b": b}
+            # operands that were stored in a database (or a narrow-dtype vector) and read back are fingerprints like any other
+            if all(Fraction(v) <= 65535 and Fraction(v).denominator == 1 for f in (a, b) for _, v in f["cnt"]) and rng.random() < 0.5:
+                case["via"] = rng.choice(["db", "db", "vector"])
+                self.count("addsub:operands-read-back-from-" + case["via"])
+            yield case
+        for _ in range(n // 3):
+            # large counts on shared positions: sums beyond 2^16, read back from a count database first
+            bits = rng.choice([64, 1024, 2 ** 32])
+            idx = sorted(rng.sample(range(min(bits, 4096)), rng.randint(1, 6)))
+            mk = lambda: {"kind": "count", "bits": bits, "level": 5, "idx": idx,  # noqa: E731
+                          "cnt": [[i, str(rng.choice([30000, 40000, 65535, 50000, 3]))] for i in idx]}
+            self.count("addsub:large-counts-via-db")
+            yield {"t": "addsub", "sign": 1, "a": mk(), "b": mk(), "via": rng.choice(["db", "vector"])}
+            fps = [mk() for _ in range(rng.randint(2, 4))]
+            self.count("batch:large-counts-via-db")
+            yield {"t": "batch", "o": rng.choice(["add", "mean"]), "fps": fps, "w": None, "via": "db"}
+        for _ in range(n // 2):
+            # a bit fingerprint combined with a count / float one, written as an expression: Python's operator dispatch
+            # (reflected methods of the subclass are tried first when it overrides them) is part of the surface
+            bits = rng.choice([8, 64, 1024, 2 ** 32])
+            a = gen_fp(rng, "bit", bits, maxn=8)
+            b = gen_fp(rng, rng.choice(["count", "float"]), bits, maxn=8)
+            if a["idx"] and rng.random() < 0.6:
+                extra = [i for i in rng.sample(a["idx"], max(1, len(a["idx"]) // 2)) if i not in b["idx"]]
+                b["cnt"] = sorted(b["cnt"] + [[i, "2"] for i in extra])
+                b["idx"] = [i for i, _ in b["cnt"]]
+            self.count("setop-mixed-kinds")
+            yield {"t": "setop", "o": rng.choice(list(SETOPS)), "form": rng.choice(["plain", "plain", "inplace"]), "a": a, "b": b}
         for _ in range(n):
             a = gen_fp(rng, rng.choice(["count", "float"]), rng.choice([8, 1024, 2 ** 32]))
             self.count("scalar")
@@ -144,6 +175,21 @@ class C11(vlib.Check):
             return getattr(b, refl)(a)       # Python evaluates `a op b` as b.__rop__(a)
         return f_inpl(a, b)
 
+    @staticmethod
+    def _via(case, fp):
+        """the operand after a trip through a database row or a narrow-dtype vector (content unchanged)"""
+        via = case.get("via")
+        if via is None or fp.__class__ is CLS["bit"]:
+            return fp
+        import numpy as np
+        if via == "db":
+            from e3fp.fingerprint.db import FingerprintDatabase
+            db = FingerprintDatabase(fp_type=fp.__class__, level=fp.level)
+            db.add_fingerprints([fp])
+            return db[0]
+        dt = np.uint16 if fp.__class__ is CLS["count"] else np.float32
+        return fp.__class__.from_vector(fp.to_vector(sparse=True, dtype=dt), level=fp.level)
+
     def impl(self, case):
         t = case["t"]
         if t == "setop":
@@ -151,7 +197,7 @@ class C11(vlib.Check):
             r = attempt(lambda: self._apply_setop(case, a, b), dump_fp)
             return {"res": r, "a_after": dump_fp(a) if case["form"] != "inplace" or "err" in r else None, "b_after": dump_fp(b)}
         if t == "addsub":
-            a, b = make_fp(case["a"]), make_fp(case["b"])
+            a, b = self._via(case, make_fp(case["a"])), self._via(case, make_fp(case["b"]))
             r = attempt(lambda: (a + b) if case["sign"] == 1 else (a - b), dump_fp)
             return {"res": r, "a_after": dump_fp(a), "b_after": dump_fp(b)}
         if t == "scalar":
@@ -169,7 +215,7 @@ class C11(vlib.Check):
                 r = attempt(lambda: f(a, case["x"]), dump_fp)
             return {"res": r, "a_after": dump_fp(a)}
         if t == "batch":
-            fps = [make_fp(s) for s in case["fps"]]
+            fps = [self._via(case, make_fp(s)) for s in case["fps"]]
             w = None if case["w"] is None else [float(Fraction(x)) for x in case["w"]]
             f = fpm.add if case["o"] == "add" else fpm.mean
             r = attempt(lambda: f(fps, weights=w), lambda x: None if x is None else dump_fp(x))
